@@ -1,3 +1,326 @@
 import LunarVerif.Proofs.C04
+import LunarVerif.Proofs.C04Order
+/-!
+# C04 — Flow execution follows the configured processor graph
+
+Property theorems only (helpers live in `Proofs/C04*.lean`).
+
+Model: `Model/FlowGraph.lean` (builder: `buildConnection` case analysis, `addEdge` de-duplication,
+`getOrCreateNode`, root), `Model/FlowExec.lean` (walker: `Stream.ExecuteFlow` recursion with fuel,
+`executeFlow`, `executeReq`, `executeRes`), `Model/C04.lean` (loader glue, system flows of quotas).
+Spec: `Spec/C04.lean` — a reference interpreter over the YAML connection lists.
+
+All theorems quantify over every processor vocabulary, every flow representation that the builder
+accepts, every output oracle (assignment of outputs, early responses and errors to processors) and
+every recursion bound `fuel` (both interpreters take the same bound, so the statements do not depend
+on termination — that is C05's subject).
+
+Where the unchanged code violates the property the statement is `…_partial` with the excluded class
+as an explicit decidable hypothesis (the classifier `finding` / `mergedGroup` the judge uses) next to
+a `…_witness` theorem, whose concrete input is also replayed on the real engine
+(`corpus/C04/F04{a,b,c,d,e}.ops`).
+-/
 namespace LunarVerif.C04
+open LunarVerif.FlowGraph LunarVerif.FlowExec
+
+/-! ## 1. The built graph is the graph of the connection list -/
+
+/-- For every connection list the builder accepts: the root is the target of the last
+    `stream start → processor` connection; a node exists exactly for the processors the list
+    mentions; from node `k` on output `o` the walker follows exactly the reference successors
+    (connection order, duplicates removed); the first edge of `k` is the first connection leaving `k`;
+    every processor edge leads to an existing node. -/
+theorem build_refines_connections (pts : List PType) (procs : List (String × String)) (d : Dir)
+    (cs : List Conn) (g : DirGraph) (hb : buildConnections pts procs d {} cs = .ok g) :
+    g.root = entry cs ∧
+    (∀ k, (g.find k).isSome = mentioned cs k) ∧
+    (∀ k n o, g.find k = some n → matchT o n.edges = succs cs k o) ∧
+    (∀ k n, g.find k = some n → n.edges.head?.map (·.target) = (firstConn cs k).map toTarget) ∧
+    (∀ k n e t, g.find k = some n → e ∈ n.edges → e.target = .node t → (g.find t).isSome = true) := by
+  have h := build_inv hb
+  exact ⟨h.root, find_isSome_eq h, fun k n o hn => node_succs h hn o, fun k n hn => first_edge h hn,
+    fun k n e t hn he ht => edge_target_exists h hn he ht⟩
+
+/-- non-vacuity: a fan-out with a duplicate connection and two stream entries builds; the duplicate
+    is dropped and the last stream entry wins. -/
+example :
+    okVal (buildConnections [⟨"PA", [⟨"a", "any"⟩, ⟨"b", "any"⟩]⟩] [("A", "PA"), ("B", "PA"), ("C", "PA")] .req {}
+      [⟨.stream "globalStream" "start", .proc "B" ""⟩, ⟨.stream "globalStream" "start", .proc "A" ""⟩,
+       ⟨.proc "A" "a", .proc "B" ""⟩, ⟨.proc "A" "a", .proc "C" ""⟩, ⟨.proc "A" "a", .proc "B" ""⟩,
+       ⟨.proc "B" "b", .stream "globalStream" "end"⟩])
+    = some { root := some "A",
+             nodes := [⟨"B", [⟨"b", .stream "globalStream" "end"⟩]⟩,
+                       ⟨"A", [⟨"a", .node "B"⟩, ⟨"a", .node "C"⟩]⟩, ⟨"C", []⟩] } := by decide
+
+/-! ## 2. The walk follows the graph (request direction without answering processors; response direction) -/
+
+/-- **walk_refines_spec.**  For every flow the builder accepts, every oracle and every node `k` of the
+    direction: if no processor answers the request itself (always the case in the response
+    direction), the engine's walk from `k` produces exactly the reference interpreter's event
+    sequence and outcome. -/
+theorem walk_refines_spec (pts : List PType) (rep : FlowRep) (f : Flow) (o : Oracle) (d : Dir)
+    (fuel : Nat) (k : String) (hb : buildFlow pts rep = .ok f) (hk : ((f.dir d).find k).isSome = true)
+    (hna : d = .res ∨ ∀ k, (o rep.name k .req).early = false) :
+    (walk f o d fuel k).trace = (swalk (sflowOf rep) o d fuel k).trace ∧
+    (walk f o d fuel k).err = (swalk (sflowOf rep) o d fuel k).err ∧
+    (walk f o d fuel k).sc = none := by
+  have hrel := walk_rel (built_of_buildFlow hb) o d fuel k hk
+  have hno : NoAnswer (sflowOf rep) o d := by
+    rcases hna with rfl | h
+    · exact noAnswer_res _ o
+    · intro k
+      have := h k
+      cases d <;> simp [sflowOf, this]
+  have hns := swalk_nostop hno fuel k
+  have := rel_nostop hrel hns.1 hns.2
+  exact ⟨this.1, this.2.2, this.2.1⟩
+
+/-- **walk_refines_spec_partial.**  With answering processors: the walks agree (events, outcome, and
+    the short-circuit node equals the answering processor) whenever the reference run is outside
+    the class F04b (`pending`: an enclosing fan-out still had connections to follow when the request
+    was answered) and outside F04c (the answering processor has a node in the response direction). -/
+theorem walk_refines_spec_partial (pts : List PType) (rep : FlowRep) (f : Flow) (o : Oracle) (d : Dir)
+    (fuel : Nat) (k : String) (hb : buildFlow pts rep = .ok f) (hk : ((f.dir d).find k).isSome = true)
+    (hb04 : (swalk (sflowOf rep) o d fuel k).pending = false)
+    (hc04 : ∀ a, (swalk (sflowOf rep) o d fuel k).stop = some a → mentioned rep.res a = true) :
+    (walk f o d fuel k).trace = (swalk (sflowOf rep) o d fuel k).trace ∧
+    (walk f o d fuel k).err = (swalk (sflowOf rep) o d fuel k).err ∧
+    (walk f o d fuel k).sc = (swalk (sflowOf rep) o d fuel k).stop := by
+  have hrel := walk_rel (built_of_buildFlow hb) o d fuel k hk
+  have hok := sok_swalk (sflowOf rep) o d fuel k
+  rcases hrel with h | ⟨htr, hrest⟩
+  · simp [hb04] at h
+  · cases hs : (swalk (sflowOf rep) o d fuel k).stop with
+    | none =>
+      rw [hs] at hrest
+      exact ⟨htr, hrest.2, hrest.1⟩
+    | some a =>
+      rw [hs] at hrest
+      simp only [hc04 a hs, if_true] at hrest
+      have : (swalk (sflowOf rep) o d fuel k).err = none := hok.2 (by simp [hs])
+      exact ⟨htr, by rw [hrest.2, this], hrest.1⟩
+
+/-! concrete inputs for the witnesses (the same configurations are in `corpus/C04/*.ops`) -/
+
+def wPU : PType := ⟨"PU", [⟨"", "any"⟩]⟩
+def wPG : PType := ⟨"PG", [⟨"", "res"⟩]⟩
+def wS : End := .stream "globalStream" "start"
+def wE : End := .stream "globalStream" "end"
+/-- processor `G` answers the request; everything else emits its unnamed output -/
+def wOracle : Oracle := fun _ k d => if k == "G" && d == .req then { early := true } else {}
+
+/-- F04b: `A → G`, `A → B` (fan-out), `G` answers -/
+def wRepB : FlowRep :=
+  ⟨"f1", [("A", "PU"), ("G", "PG"), ("B", "PU")],
+   [⟨wS, .proc "A" ""⟩, ⟨.proc "A" "", .proc "G" ""⟩, ⟨.proc "A" "", .proc "B" ""⟩, ⟨.proc "B" "", wE⟩],
+   [⟨.proc "G" "", wE⟩]⟩
+
+/-- **walk_fanout_violation_witness (F04b).**  The unrestricted statement is false: in the fan-out
+    `A → {G, B}` the engine still executes `B` after `G` answered the request, and returns no
+    short-circuit node. -/
+theorem walk_fanout_violation_witness :
+    ∃ (pts : List PType) (rep : FlowRep) (f : Flow) (o : Oracle) (fuel : Nat) (k : String),
+      buildFlow pts rep = .ok f ∧ ((f.dir .req).find k).isSome = true ∧
+      ¬ ((walk f o .req fuel k).trace = (swalk (sflowOf rep) o .req fuel k).trace ∧
+         (walk f o .req fuel k).sc = (swalk (sflowOf rep) o .req fuel k).stop) := by
+  refine ⟨[wPU, wPG], wRepB,
+    ⟨"f1", ⟨some "A", [⟨"A", [⟨"", .node "G"⟩, ⟨"", .node "B"⟩]⟩, ⟨"G", []⟩, ⟨"B", [⟨"", .stream "globalStream" "end"⟩]⟩]⟩,
+           ⟨none, [⟨"G", [⟨"", .stream "globalStream" "end"⟩]⟩]⟩⟩,
+    wOracle, 5, "A", okVal_eq (by decide), by decide, by decide⟩
+
+/-! ## 3. The response continuation after a short-circuit -/
+
+/-- **shortcircuit_continues_partial.**  After processor `k` answered the request, the engine's
+    response walk of that flow (`executeFlow` started from the short-circuit node) equals the
+    reference continuation — the walk from the first response connection leaving `k` — provided
+    `k` has a response node (¬F04c), a continuation to a processor finds a stream entry in the
+    response direction (¬F04a), and a missing continuation finds none (¬F04d). -/
+theorem shortcircuit_continues_partial (pts : List PType) (rep : FlowRep) (f : Flow) (o : Oracle)
+    (fuel : Nat) (k : String) (hb : buildFlow pts rep = .ok f)
+    (hc04 : mentioned rep.res k = true)
+    (ha04 : ∀ t c, firstConn rep.res k = some (.proc t c) → (entry rep.res).isSome = true)
+    (hd04 : firstConn rep.res k = none → entry rep.res = none) :
+    (executeFlow f o .res fuel (some k)).trace = (scontinue (sflowOf rep) o fuel k).trace ∧
+    (executeFlow f o .res fuel (some k)).err = (scontinue (sflowOf rep) o fuel k).err :=
+  continue_eq (built_of_buildFlow hb) o fuel k hc04 ha04 hd04
+
+/-- F04a: request `A → G`; response `G → P → end` WITHOUT stream entry (accepted by `validateDirection`) -/
+def wCfgA : Cfg :=
+  { ptypes := [wPU, wPG]
+    flows := [⟨.user, ⟨"f1", [("A", "PU"), ("G", "PG"), ("P", "PU")],
+      [⟨wS, .proc "A" ""⟩, ⟨.proc "A" "", .proc "G" ""⟩],
+      [⟨.proc "G" "", .proc "P" ""⟩, ⟨.proc "P" "", wE⟩]⟩⟩] }
+
+/-- the model's answer for a whole configuration (`none` = rejected by the loader) -/
+def modelTxn (c : Cfg) (order : List String) (o : Oracle) (d : Dir) (fuel : Nat) :
+    Option (List Event × Option ExecErr) :=
+  match load c order with
+  | .ok l => some ((transaction l.selected o fuel d).trace, (transaction l.selected o fuel d).err)
+  | .error _ => none
+
+def specTxn (c : Cfg) (order : List String) (o : Oracle) (d : Dir) (fuel : Nat) :
+    List Event × Option ExecErr :=
+  ((stxn (specCfg c order) o fuel d).trace, (stxn (specCfg c order) o fuel d).err)
+
+/-- **shortcircuit_rootless_witness (F04a).**  The loader accepts a response direction without
+    stream entry; `executeFlow` returns at `start == nil` before looking at the short-circuit node,
+    so the continuation `G → P` never runs: the engine enters the response direction of `f1` and
+    executes nothing, the reference executes `P`. -/
+theorem shortcircuit_rootless_witness :
+    ∃ (c : Cfg) (order : List String) (o : Oracle) (fuel : Nat),
+      modelTxn c order o .req fuel =
+        some ([.enter "f1" .req, .exec "f1" "A" .req {}, .exec "f1" "G" .req { early := true },
+               .enter "f1" .res], none) ∧
+      specTxn c order o .req fuel =
+        ([.enter "f1" .req, .exec "f1" "A" .req {}, .exec "f1" "G" .req { early := true },
+          .enter "f1" .res, .exec "f1" "P" .res {}], none) ∧
+      finding (stxn (specCfg c order) o fuel .req) = some "F04a" :=
+  ⟨wCfgA, ["f1"], wOracle, 8, by decide, by decide, by decide⟩
+
+/-- F04c: request `A → G`; the response direction has no node `G` at all -/
+def wCfgC : Cfg :=
+  { ptypes := [wPU, wPG]
+    flows := [⟨.user, ⟨"f1", [("A", "PU"), ("G", "PG")],
+      [⟨wS, .proc "A" ""⟩, ⟨.proc "A" "", .proc "G" ""⟩], [⟨wS, wE⟩]⟩⟩] }
+
+/-- **shortcircuit_noresponsenode_witness (F04c).**  Accepted by the loader; the transaction aborts
+    with "failed to get response node". -/
+theorem shortcircuit_noresponsenode_witness :
+    ∃ (c : Cfg) (order : List String) (o : Oracle) (fuel : Nat),
+      modelTxn c order o .req fuel =
+        some ([.enter "f1" .req, .exec "f1" "A" .req {}, .exec "f1" "G" .req { early := true }],
+              some .respNode) ∧
+      (specTxn c order o .req fuel).2 = none ∧
+      finding (stxn (specCfg c order) o fuel .req) = some "F04c" :=
+  ⟨wCfgC, ["f1"], wOracle, 8, by decide, by decide, by decide⟩
+
+/-- F04d: response `start → R → G`, `G` without outgoing connection -/
+def wCfgD : Cfg :=
+  { ptypes := [wPU, wPG]
+    flows := [⟨.user, ⟨"f1", [("A", "PU"), ("G", "PG"), ("R", "PU")],
+      [⟨wS, .proc "A" ""⟩, ⟨.proc "A" "", .proc "G" ""⟩],
+      [⟨wS, .proc "R" ""⟩, ⟨.proc "R" "", .proc "G" ""⟩]⟩⟩] }
+
+/-- **shortcircuit_noedge_witness (F04d).**  The engine walks the whole response flow from the stream
+    entry (`R`, then `G` again); the reference continuation is empty. -/
+theorem shortcircuit_noedge_witness :
+    ∃ (c : Cfg) (order : List String) (o : Oracle) (fuel : Nat),
+      modelTxn c order o .req fuel =
+        some ([.enter "f1" .req, .exec "f1" "A" .req {}, .exec "f1" "G" .req { early := true },
+               .enter "f1" .res, .exec "f1" "R" .res {}, .exec "f1" "G" .res {}], none) ∧
+      specTxn c order o .req fuel =
+        ([.enter "f1" .req, .exec "f1" "A" .req {}, .exec "f1" "G" .req { early := true },
+          .enter "f1" .res], none) ∧
+      finding (stxn (specCfg c order) o fuel .req) = some "F04d" :=
+  ⟨wCfgD, ["f1"], wOracle, 8, by decide, by decide, by decide⟩
+
+/-! ## 4. Whole transactions -/
+
+/-- **txn_refines_spec_partial** (the connection theorem).  For every configuration the model's
+    loader accepts, every build order, every oracle, both directions and every fuel: outside the
+    decidable classes of the known findings (`finding … = none` excludes F04a–d, `mergedGroup` is
+    F04e) and provided system-flow processors never answer a request, the engine model's event
+    sequence and outcome are exactly the reference interpreter's. -/
+theorem txn_refines_spec_partial (c : Cfg) (order : List String) (l : Loaded) (o : Oracle) (d : Dir)
+    (fuel : Nat) (hl : load c order = .ok l)
+    (he04 : mergedGroup c.quotas = false)
+    (hq : SysQuiet (specCfg c order) o)
+    (habcd : finding (stxn (specCfg c order) o fuel d) = none) :
+    (transaction l.selected o fuel d).trace = (stxn (specCfg c order) o fuel d).trace ∧
+    (transaction l.selected o fuel d).err = (stxn (specCfg c order) o fuel d).err :=
+  txn_eq c order l o d fuel hl he04 hq habcd
+
+/-- The predicate the judge evaluates on the implementation's answers (`holds`) is true of every
+    run of the model outside the finding classes: a judge failure on the implementation is a
+    divergence from the proved model or a listed finding. -/
+theorem judge_holds_of_model_partial (c : Cfg) (order : List String) (l : Loaded) (o : Oracle) (d : Dir)
+    (fuel : Nat) (hl : load c order = .ok l)
+    (he04 : mergedGroup c.quotas = false)
+    (hq : SysQuiet (specCfg c order) o)
+    (habcd : finding (stxn (specCfg c order) o fuel d) = none) :
+    holds (specCfg c order) o d fuel (transaction l.selected o fuel d).trace
+      (transaction l.selected o fuel d).err = true := by
+  have h := txn_eq c order l o d fuel hl he04 hq habcd
+  simp [holds, h.1, h.2]
+
+/-- two user flows and a quota; `f1.B` branches on `a`/`b`, `f2.G` answers the request -/
+def wCfgOK : Cfg :=
+  { ptypes := [wPU, wPG, ⟨"PA", [⟨"a", "any"⟩, ⟨"b", "any"⟩]⟩]
+    quotas := [⟨"q1", "q1", true, false⟩]
+    flows := [
+      ⟨.user, ⟨"f1", [("A", "PU"), ("B", "PA"), ("C", "PU"), ("D", "PU")],
+        [⟨wS, .proc "A" ""⟩, ⟨.proc "A" "", .proc "B" ""⟩, ⟨.proc "B" "a", .proc "C" ""⟩,
+         ⟨.proc "B" "b", .proc "D" ""⟩, ⟨.proc "B" "a", .proc "C" ""⟩, ⟨.proc "C" "", wE⟩, ⟨.proc "D" "", wE⟩],
+        [⟨wS, .proc "D" ""⟩, ⟨.proc "D" "", wE⟩]⟩⟩,
+      ⟨.user, ⟨"f2", [("X", "PU"), ("G", "PG"), ("P", "PU"), ("R", "PU")],
+        [⟨wS, .proc "X" ""⟩, ⟨.proc "X" "", .proc "G" ""⟩],
+        [⟨wS, .proc "R" ""⟩, ⟨.proc "R" "", wE⟩, ⟨.proc "G" "", .proc "P" ""⟩, ⟨.proc "P" "", wE⟩]⟩⟩] }
+
+def wOracleOK : Oracle := fun f k d =>
+  if f == "f2" && k == "G" && d == .req then { early := true }
+  else if f == "f1" && k == "B" then { name := "b" } else {}
+
+/-- non-vacuity of the connection theorem: an accepted configuration outside every finding class
+    with a branching walk, a short-circuit, system flows and a response phase. -/
+example :
+    (okVal (load wCfgOK ["f1", "f2"])).isSome = true ∧ mergedGroup wCfgOK.quotas = false ∧
+    finding (stxn (specCfg wCfgOK ["f1", "f2"]) wOracleOK 9 .req) = none ∧
+    (specTxn wCfgOK ["f1", "f2"] wOracleOK .req 9).1.length = 17 := by
+  refine ⟨by decide, by decide, by decide, by decide⟩
+
+/-! ## 5. Order of flows -/
+
+/-- **system_flow_order (requests).**  A request transaction that ends without error enters the
+    flows in this order: all system start flows, the user flows in order up to and including the one
+    in which a processor answered (all of them if none did), all system end flows — the user flows
+    after a short-circuit are skipped, the system end flows still run; and after a short-circuit the
+    whole response phase follows: system start flows, user flows, system end flows, each group in
+    reverse. -/
+theorem system_flow_order (s : Selected) (o : Oracle) (fuel : Nat)
+    (h : (transaction s o fuel .req).err = none) :
+    ∃ pre post, s.user = pre ++ post ∧
+      ((transaction s o fuel .req).sc = none → post = []) ∧
+      (∀ fl k, (transaction s o fuel .req).sc = some (fl, k) → ∃ pre' f, pre = pre' ++ [f] ∧ f.name = fl) ∧
+      enters (transaction s o fuel .req).trace =
+        (s.start ++ pre ++ s.finish).map (fun f => (f.name, Dir.req)) ++
+        (if (transaction s o fuel .req).sc.isSome then
+          (s.start.reverse ++ s.user.reverse ++ s.finish.reverse).map (fun f => (f.name, Dir.res))
+         else []) :=
+  enters_executeReq s o fuel h
+
+/-- **system_flow_order (responses).**  A response transaction that ends without error enters the
+    system start flows, the user flows and the system end flows, each group in reverse order. -/
+theorem system_flow_order_response (s : Selected) (o : Oracle) (fuel : Nat)
+    (h : (transaction s o fuel .res).err = none) :
+    enters (transaction s o fuel .res).trace =
+      (s.start.reverse ++ s.user.reverse ++ s.finish.reverse).map (fun f => (f.name, Dir.res)) :=
+  enters_executeRes s o fuel none h
+
+/-- non-vacuity: the order on the configuration above (quota `q1` contributes a start and an end flow) -/
+example :
+    (modelTxn wCfgOK ["f1", "f2"] wOracleOK .req 9).map (fun r => enters r.1) =
+      some [("SystemFlow_q1_SYSTEM_FLOW_START", .req), ("f1", .req), ("f2", .req),
+            ("SystemFlow_q1_SYSTEM_FLOW_END", .req),
+            ("SystemFlow_q1_SYSTEM_FLOW_START", .res), ("f2", .res), ("f1", .res),
+            ("SystemFlow_q1_SYSTEM_FLOW_END", .res)] := by decide
+
+/-! ## 6. System flows of quotas -/
+
+/-- **system_flow_chain_partial.**  When no two quotas share a filter, the system flows the engine
+    generates are the reference ones (every quota processor wired in sequence between stream start
+    and stream end). -/
+theorem system_flow_chain_partial (qs : List Quota) (he04 : mergedGroup qs = false) :
+    sysDecls sysConns qs = sysDecls chainConns qs :=
+  sysDecls_eq qs he04
+
+/-- **system_flow_merged_witness (F04e).**  Two quotas with the same filter: the generated system
+    start flow wires only the last processor — `q1_QuotaProcessorInc` is not even a node of the built
+    request direction, so quota `q1` is never counted. -/
+theorem system_flow_merged_witness :
+    ∃ (qs : List Quota),
+      mergedGroup qs = true ∧ sysDecls sysConns qs ≠ sysDecls chainConns qs ∧
+      (okVal (load { quotas := qs } [])).map
+        (fun l => l.selected.start.map (fun f => f.req.nodes.map (·.key))) = some [["q2_QuotaProcessorInc"]] :=
+  ⟨[⟨"q1", "q1", true, false⟩, ⟨"q2", "q2", false, false⟩], by decide, by decide, by decide⟩
+
 end LunarVerif.C04
